@@ -186,6 +186,9 @@ func runSize(c SizeCase) (res common.Result) {
 		case s >= 65536-24 && s <= 65536+24:
 			res.Classes = append(res.Classes, "near-64KiB")
 		}
+		if s >= 20<<20 && s < segment.MaxEntrySize-4096 && len(c.Sizes) > 2 {
+			res.Classes = append(res.Classes, "batch-larger-than-MaxEntrySize")
+		}
 		if s >= segment.MaxEntrySize-4096 {
 			res.Classes = append(res.Classes, fmt.Sprintf("near-MaxEntrySize%+d", s-segment.MaxEntrySize))
 		}
@@ -206,9 +209,17 @@ func TestC15Real(t *testing.T) {
 func TestC15Big(t *testing.T) {
 	common.Run(t, "C15", "C15Big", func(t *rapid.T) SizeCase {
 		c := SizeCase{}
-		c.SegSize = rapid.SampledFrom([]int{1 << 20, 64 << 20}).Draw(t, "seg")
+		// 256MiB: the big batch stays in the unsealed tail and is recovered by the tail scan on reopen
+		c.SegSize = rapid.SampledFrom([]int{1 << 20, 64 << 20, 256 << 20, 256 << 20}).Draw(t, "seg")
 		d := rapid.SampledFrom([]int{-1, 0, 1, 4096, -4096}).Draw(t, "delta")
 		pos := rapid.IntRange(0, 2).Draw(t, "pos")
+		if c.SegSize > 64<<20 && rapid.IntRange(0, 1).Draw(t, "multi") == 0 {
+			// one batch of several large entries whose frames total more than MaxEntrySize
+			c.Sizes = []int{24 << 20, 24<<20 + 5, 24<<20 - 3}
+			c.Pre = rapid.IntRange(0, 1).Draw(t, "pre")
+			c.After = 1
+			return c
+		}
 		switch pos {
 		case 0:
 			c.Sizes = []int{segment.MaxEntrySize + d}
